@@ -41,44 +41,85 @@ def node_digest(ty, v, kids):
     return h
 
 
-class NodeDoc:
-    """nodes: {id: dict(v, swallow, e0, e1, deps=[(ty, ref)])}; free: ids that are free xref entries"""
+E_WRONGTYPE, E_PARSE, E_UNLISTED, E_EOF, E_MAXDEPTH = 10, 11, 6, 5, 8
+# objects that are no Node dictionaries: what they are in the file, and the error kind of loading them as any Node type
+BROKEN = {"array": ([1, 2], E_WRONGTYPE), "int": (42, E_WRONGTYPE), "parse": (Name("BROKENBROKEN"), E_PARSE)}
+BROKEN_PLACEHOLDER, BROKEN_BYTES = b"/BROKENBROKEN", b"<< /V ] 12 >>"     # same length: offsets stay valid
 
-    def __init__(self, nodes, free=()):
+
+class NodeDoc:
+    """nodes: {id: dict(v, swallow, e0, e1, deps=[(ty, ref)], lazy=mask (types that do not follow deps), kind=error
+    kind of the e0/e1 masks (0 = Other))}; free: ids that are free xref entries; broken: {id: "array"|"int"|"parse"}
+    objects that are not Node dictionaries; unlisted: ids beyond the cross-reference table"""
+
+    def __init__(self, nodes, free=(), broken=None, unlisted=()):
         self.nodes, self.free = nodes, set(free)
+        self.broken, self.unlisted = dict(broken or {}), set(unlisted)
+
+    @staticmethod
+    def flags(n):
+        return (1 if n["swallow"] else 0) | ((n.get("lazy", 0) & 7) << 1) | (n.get("kind", 0) << 4)
 
     def rows(self):
         out = []
         for i, n in sorted(self.nodes.items()):
-            out.append(" ".join(str(x) for x in [i, n["v"], 1 if n["swallow"] else 0, n["e0"], n["e1"]] +
+            out.append(" ".join(str(x) for x in [i, n["v"], self.flags(n), n["e0"], n["e1"]] +
                                 [y for d in n["deps"] for y in d]))
+        # an object that fails as every Node type with kind k: a node whose E0 mask has all three bits
+        for i, what in sorted(self.broken.items()):
+            out.append("%d 0 %d 7 0" % (i, BROKEN[what][1] << 4))
+        for i in sorted(self.unlisted):
+            out.append("%d 0 %d 7 0" % (i, E_UNLISTED << 4))
         return "\n".join(out).encode()
 
     def objects(self):
         objs = {}
         for i, n in self.nodes.items():
-            objs[i] = {"V": n["v"], "F": 1 if n["swallow"] else 0, "E0": n["e0"], "E1": n["e1"],
+            objs[i] = {"V": n["v"], "F": self.flags(n), "E0": n["e0"], "E1": n["e1"],
                        "D": [y for (ty, r) in n["deps"] for y in (ty, Ref(r))]}
+        for i, what in self.broken.items():
+            objs[i] = BROKEN[what][0]
         return objs
+
+    def build(self):
+        assert len(BROKEN_PLACEHOLDER) == len(BROKEN_BYTES)
+        top = max(list(self.nodes) + list(self.free) + list(self.broken) + [3])
+        assert all(u > top for u in self.unlisted)
+        data = build_file(self.objects(), free=self.free)
+        return data.replace(BROKEN_PLACEHOLDER, BROKEN_BYTES)
+
+    def all_ids(self):
+        return sorted(set(self.nodes) | self.free | set(self.broken) | self.unlisted)
 
     def alone_get(self, ty, r, chain=()):
         """the answer of get::<Node<ty>>(r) on a cache-free document with the guard stack `chain`"""
         if r in chain:
             return ("e", E_OTHER)              # "Recursive reference"
+        if r in self.broken:
+            return ("e", BROKEN[self.broken[r]][1])
+        if r in self.unlisted:
+            return ("e", E_UNLISTED)
         n = self.nodes.get(r)
         if n is None:
             return ("e", E_FREE)
+        kind = n.get("kind", 0) or E_OTHER
         if (n["e0"] >> ty) & 1:
-            return ("e", E_OTHER)
+            return ("e", kind)
         kids = []
-        for (t2, r2) in n["deps"]:
-            a = self.alone_get(t2, r2, chain + (r,))
-            if a[0] == "e" and not n["swallow"]:
-                return a
-            kids.append(a)
+        if not (n.get("lazy", 0) >> ty) & 1:
+            for (t2, r2) in n["deps"]:
+                a = self.alone_get(t2, r2, chain + (r,))
+                if a[0] == "e" and not n["swallow"]:
+                    return a
+                kids.append(a)
         if (n["e1"] >> ty) & 1:
-            return ("e", E_OTHER)
+            return ("e", kind)
         return ("o", node_digest(ty, n["v"], kids))
+
+    def type_dependent(self, r):
+        """some type fails and another succeeds (the loads the cache, keyed by the reference only, may confuse)"""
+        a = [self.alone_get(ty, r)[0] for ty in range(3)]
+        return "e" in a and "o" in a
 
     def acyclic(self):
         color = {}
@@ -95,6 +136,60 @@ class NodeDoc:
             color[r] = 2
             return True
         return all(visit(r) for r in self.nodes)
+
+
+MASK_KINDS = [E_OTHER, E_NULLREF, E_FREE, E_MISSING, E_EOF, E_UNLISTED, E_MAXDEPTH, E_WRONGTYPE, E_PARSE]
+
+
+def split_doc(rng, selfloop=False):
+    """A document in which, for every error kind, some reference fails with that kind when it is loaded as one type
+    and loads when it is loaded as another:
+      * through a nested load that only the eager types follow: to a free object, to an object beyond the
+        cross-reference table, to an object of the wrong type (an array, an integer), to an object that does
+        not parse, [selfloop: to the object itself -> "Recursive reference"];
+      * through the type's own check (E0 before / E1 after the nested loads) raising each kind;
+    plus parents that load such a reference as two types within one load (swallowing the error, or not)."""
+    nodes, broken = {}, {}
+    nid = [4]
+
+    def new():
+        nid[0] += 1
+        return nid[0] - 1
+    t_array, t_int, t_parse, t_free = new(), new(), new(), new()
+    broken[t_array], broken[t_int], broken[t_parse] = "array", "int", "parse"
+    leaf = new()
+    nodes[leaf] = dict(v=rng.randrange(1000), swallow=False, e0=0, e1=0, deps=[])
+    targets = [("free", t_free), ("array", t_array), ("int", t_int), ("parse", t_parse), ("unlisted", None)]
+    parents = []
+    lazies = [6, 2, 4, 5, 3, 1]          # which types do not follow the reference
+    rng.shuffle(lazies)
+    for k, (what, tgt) in enumerate(targets):
+        pid = new()
+        parents.append((pid, what))
+        nodes[pid] = dict(v=rng.randrange(1000), swallow=False, e0=0, e1=0, lazy=lazies[k % len(lazies)],
+                          deps=[(rng.randrange(3), leaf), (rng.randrange(3), tgt)])
+    if selfloop:
+        pid = new()
+        nodes[pid] = dict(v=rng.randrange(1000), swallow=False, e0=0, e1=0, lazy=rng.choice([6, 2, 4]),
+                          deps=[(0, pid)])
+    for kind in MASK_KINDS:
+        pid = new()
+        early = rng.random() < 0.5
+        mask = rng.choice([1, 2, 4, 3, 5, 6])
+        nodes[pid] = dict(v=rng.randrange(1000), swallow=False, e0=mask if early else 0, e1=0 if early else mask,
+                          kind=kind, deps=[(rng.randrange(3), leaf)] if rng.random() < 0.5 else [])
+    # parents that load a type-dependent reference as two or three types within one load
+    singles = [i for i in nodes if i != leaf]
+    for _ in range(4):
+        pid = new()
+        tgt = rng.choice(singles)
+        tys = rng.sample([0, 1, 2], rng.choice([2, 3]))
+        nodes[pid] = dict(v=rng.randrange(1000), swallow=rng.random() < 0.6, e0=0, e1=0, deps=[(ty, tgt) for ty in tys])
+    top = nid[0]
+    for i, (pid, what) in enumerate(parents):
+        if what == "unlisted":
+            nodes[pid]["deps"][1] = (nodes[pid]["deps"][1][0], top + 1)
+    return NodeDoc(nodes, free=[t_free], broken=broken, unlisted=[top + 1])
 
 
 def show(a):
